@@ -72,4 +72,12 @@ def addHash160 (f : Filter) (h : Bytes) : M Filter := addItem f h
 def addSpendable (f : Filter) (txHash : Bytes) (idx : Int) : M Filter :=
   if 0 ≤ idx ∧ idx < 2 ^ 32 then addItem f (txHash ++ leBytes idx.toNat 4) else throw .structError
 
+/-- the peer-side test as the harness observes it through pycoin: every one of the `hash_function_count` positions
+`murmur3(item, k * 0xFBA4C795 + tweak) % bit_count` passes `check_bit` -/
+def matchesPy (f : Filter) (b : Bytes) : M Bool :=
+  (List.range f.hashFunctionCount.toNat).foldlM (fun acc (k : Nat) => do
+    let h ← Murmur3Py.murmur3 b ((k : Int) * bloomSeedMul + f.tweak)
+    let v ← pyMod h f.bitCount
+    pure (acc && (← checkBit f v))) true
+
 end Pycoin.Bloom
